@@ -41,3 +41,11 @@ func VerifC41CertLookup(certs map[string]*bfe_tls.Certificate, ruleMap tls_rule_
 	}
 	return best
 }
+
+// VerifC41RuleMap loads conf into a fresh TLSServerRuleMap; the result is a bfe_tls.ServerRule exactly as bfe_server
+// installs it into the TLS configuration.
+func VerifC41RuleMap(conf tls_rule_conf.BfeTlsRuleConf, caMap map[string]*x509.CertPool) *TLSServerRuleMap {
+	m := NewTLSServerRuleMap(new(ProxyState))
+	m.Update(conf, caMap, map[string]*bfe_tls.CRLPool{})
+	return m
+}
